@@ -369,6 +369,13 @@ func (s *Server) handlePostHalt(w http.ResponseWriter, r *http.Request) {
 		return
 	}
 
+	// Only the primary grants halt locks. A replica that granted one would
+	// accept the caller's transaction and never replicate it.
+	if err := s.store.PrimaryCtx(r.Context()).Err(); err != nil {
+		Error(w, r, err, http.StatusServiceUnavailable)
+		return
+	}
+
 	// Ensure database exists before attempting a lock.
 	db, err := s.store.CreateDBIfNotExists(name)
 	if err != nil {
